@@ -302,3 +302,37 @@ _m("C19",
               "lineage models use LineageVolumeSplitter; species assigned by plain rules are excluded from the partition identity",
               "models are built so that lineages stay small; the simulator's explicit 'dividing too fast' rejection is a skip"],
    budget={"quick": 200, "thorough": 2400})
+
+
+# ---- later extensions of the generators (kept separate so that the original rule texts stay readable) -------------
+def _extend(pid, text):
+    META[pid].RULE = META[pid].RULE + "  Extended: " + text
+
+
+_extend("C02", "evaluation points include negative species and parameter values (every point at which the formula is finite).")
+_extend("C03", "general rates that change sign (lumped reversible laws, negated rates; the safe interface is compared only "
+               "where its guards are inactive) and delayed parts with delay type 'none'.")
+_extend("C04", "reactions with a sign-changing lumped reversible rate; a 'pulse' family - a quiet system at steady state hit by "
+               "a narrow smooth pulse, simulated with the documented hmax keyword / py_set_hmax, reference integrated with a "
+               "matching maximum step.")
+_extend("C05", "one network in four has 5..7 reactions; one grid in four starts after the simulation start; the time grid is "
+               "passed as a contiguous array, a strided slice or a column of a 2-d array.")
+_extend("C07", "the dividing volume object is part of the quick lattice too (432 combinations); the model's assignment rule may "
+               "read the time and the volume, and the expected first row is evaluated at the first grid time and at the volume in play.")
+_extend("C08", "a third seeded run after using the generator in other ways (an odd number of normal / uniform / exponential / "
+               "gamma / erlang / binomial draws) must equal the first; a verdict that varies between executions of one case is "
+               "reported with a replay that runs the case repeatedly in one process.")
+_extend("C09", "dt counters and ODE rules may target a parameter that a repeated rule mirrors into an observable species; one "
+               "case in four extends the constructor-initialised model by an unused parameter before simulating (second initialisation).")
+_extend("C11", "the reported grid may start 1, 2 or 5 steps after the simulation start (growth law and division step are counted "
+               "from the start of the simulation).")
+_extend("C12", "mass-action rate constants are occasionally tiny (1e-13 scale) or many-digit; stored values are compared purely relatively.")
+_extend("C13", "a local parameter may carry the id - and the declared value - of a global one that a rule assigns.")
+_extend("C14", "mass-action rate constants are occasionally tiny or many-digit; kinetic-law values are compared purely relatively.")
+_extend("C16", "values exactly on a support boundary: where the reference density there is finite the log-prior must equal it, "
+               "otherwise it must be non-finite; shapes exactly 1 are generated on purpose.")
+_extend("C17", "delayed parts with delay type 'none' (also as the only delayed parts of a model); a daughter cell pickled on its "
+               "own must keep its mother; hand-made experimental lineages with one-directional links keep exactly those links.")
+_extend("C18", "general rates that change sign (lumped reversible laws).")
+_extend("C19", "a partition is accepted only under a division mechanism that can have fired for the mother's age and volume "
+               "(a noise-free rule only once its threshold is reached); half of the two-mechanism models pair a rule with an event.")
